@@ -28,6 +28,12 @@ NINF == 777003
 \* neighbouring f32 values (2^53 + 2^29 + 1): converting it to f32 directly and via f64 differ.
 \* TLC cannot hold it; like the infinities it is a value class whose image is the language's own.
 BIG53 == 777004
+\* a NaN whose sign bit is set (what -NaN, 0.0/0.0 or inf-inf give at run time on x86): for the
+\* library any NaN is THE null of a float type, so this class must behave exactly like NULL
+\* everywhere - casts, predicates and, above all, the sort comparators (IEEE total order would put
+\* it before -inf).  Only bare float types hold it (Some(NaN) is the excluded non-canonical null).
+NEGNAN == 777005
+Canon(v) == IF v = NEGNAN THEN NULL ELSE v
 
 Floats   == {"f32", "f64"}
 SInts    == {"i32", "i64", "isize"}
@@ -48,13 +54,13 @@ Ints == {0 - 1, 0, 1, 2, 200, 300}
 RECURSIVE HasVal(_, _)
 HasVal(t, v) ==
     IF IsOpt(t) THEN v = NULL \/ HasVal(Inner(t), v)
-    ELSE CASE t \in Floats -> v \in Ints \cup {NULL, HALF, PINF, NINF}
+    ELSE CASE t \in Floats -> v \in Ints \cup {NULL, NEGNAN, HALF, PINF, NINF}
            [] t = "i32"    -> v \in Ints
            [] t \in SInts  -> v \in Ints \cup {BIG53}
            [] t = "u8"     -> v \in {0, 1, 2, 200}
            [] t \in UInts  -> v \in {0, 1, 2, 200, 300, BIG53}
            [] t = "bool"   -> v \in {0, 1}
-Universe == Ints \cup {NULL, HALF, PINF, NINF, BIG53}
+Universe == Ints \cup {NULL, NEGNAN, HALF, PINF, NINF, BIG53}
 
 InRange(v, t) ==       \* integer v representable in the integer type t
     CASE t \in SInts -> TRUE
@@ -70,7 +76,8 @@ CastVal(v, to) ==
             ELSE IF InRange(v, to) THEN <<"val", v, 1>> ELSE <<"lang">> \* wrap
       [] to = "bool" -> IF v \in {0, 1} THEN <<"val", v, 1>> ELSE <<"panic">>
 
-CastExp(v, from, to) ==
+CastExp(v0, from, to) ==
+    LET v == Canon(v0) IN
     IF v = NULL
     THEN IF CanNull(to) THEN <<"null">>
          ELSE IF IsOpt(from) THEN <<"panic">>       \* None has no image in a type without a null
@@ -82,19 +89,19 @@ CastExp(v, from, to) ==
 NullPreserved ==
     \A from \in Types, to \in Types, v \in Universe :
         (HasVal(from, v) /\ CanNull(to)) =>
-            (v = NULL <=> CastExp(v, from, to) = <<"null">>)
+            (Canon(v) = NULL <=> CastExp(v, from, to) = <<"null">>)
 \* C15: casting composes through Option on either side
 OptionComposes ==
     \A a \in Base, b \in Base, v \in Universe :
-        (HasVal(a, v) /\ v # NULL) =>
+        (HasVal(a, v) /\ Canon(v) # NULL) =>
             /\ CastExp(v, Opt(a), Opt(b)) = CastExp(v, a, b)
             /\ CastExp(v, a, Opt(b)) = CastExp(v, a, b)
             /\ CastExp(v, Opt(a), b) = CastExp(v, a, b)
 
 (* ---- null predicates ------------------------------------------------------------- *)
 
-IsNoneV(v)  == v = NULL
-ToOptV(v)   == IF v = NULL THEN <<>> ELSE <<v>>
+IsNoneV(v)  == Canon(v) = NULL
+ToOptV(v)   == IF Canon(v) = NULL THEN <<>> ELSE <<v>>
 PredicatesCoherent ==
     \A v \in Universe :
         /\ IsNoneV(v) <=> (ToOptV(v) = <<>>)
@@ -106,20 +113,22 @@ PredicatesCoherent ==
 Num(v) == CASE v = HALF -> 15 [] v = PINF -> 100000 [] v = NINF -> 0 - 100000 [] v = BIG53 -> 90000 [] OTHER -> 10 * v
 Sgn(x) == IF x < 0 THEN 0 - 1 ELSE IF x > 0 THEN 1 ELSE 0
 \* ascending by value, nulls last
-Cmp(a, b) == IF a = NULL /\ b = NULL THEN 0 ELSE IF a = NULL THEN 1 ELSE IF b = NULL THEN 0 - 1
+Cmp(a0, b0) == LET a == Canon(a0)  b == Canon(b0) IN
+             IF a = NULL /\ b = NULL THEN 0 ELSE IF a = NULL THEN 1 ELSE IF b = NULL THEN 0 - 1
              ELSE Sgn(Num(a) - Num(b))
 \* descending by value, nulls last
-CmpRev(a, b) == IF a = NULL /\ b = NULL THEN 0 ELSE IF a = NULL THEN 1 ELSE IF b = NULL THEN 0 - 1
+CmpRev(a0, b0) == LET a == Canon(a0)  b == Canon(b0) IN
+                IF a = NULL /\ b = NULL THEN 0 ELSE IF a = NULL THEN 1 ELSE IF b = NULL THEN 0 - 1
                 ELSE Sgn(Num(b) - Num(a))
 TotalPreorder(C(_, _)) ==
     \A a \in Universe, b \in Universe, c \in Universe :
         /\ C(a, a) = 0
         /\ C(a, b) = 0 - C(b, a)                                  \* total and antisymmetric up to equivalence
         /\ (C(a, b) <= 0 /\ C(b, c) <= 0) => C(a, c) <= 0         \* transitive
-        /\ (C(a, b) = 0 /\ a # NULL /\ b # NULL) => Num(a) = Num(b)
-NullsLast(C(_, _)) == \A a \in Universe : a # NULL => C(a, NULL) < 0 /\ C(NULL, a) > 0
+        /\ (C(a, b) = 0 /\ Canon(a) # NULL /\ Canon(b) # NULL) => Num(a) = Num(b)
+NullsLast(C(_, _)) == \A a \in Universe, z \in {NULL, NEGNAN} : Canon(a) # NULL => C(a, z) < 0 /\ C(z, a) > 0
 ComparatorAxioms == TotalPreorder(Cmp) /\ TotalPreorder(CmpRev) /\ NullsLast(Cmp) /\ NullsLast(CmpRev)
-                    /\ \A a \in Universe, b \in Universe : (a # NULL /\ b # NULL) => CmpRev(a, b) = Cmp(b, a)
+                    /\ \A a \in Universe, b \in Universe : (Canon(a) # NULL /\ Canon(b) # NULL) => CmpRev(a, b) = Cmp(b, a)
 
 (* ---- enumeration ------------------------------------------------------------------- *)
 
